@@ -467,6 +467,16 @@ Definition sel_fn (s : selspec) : list key -> pv -> bool :=
     | SelLeaves => is_leaf v
     end.
 
+(* pg.query collects its results in a dict keyed by the printed path: results[str(path)] = v (a later visit with the same
+   printed path replaces the value and keeps the position; cannot happen for admissible keys, where printing is injective) *)
+Fixpoint sset (k : list N) (x : pv) (l : list (list N * pv)) : list (list N * pv) :=
+  match l with
+  | [] => [(k, x)]
+  | (k', x') :: r => if str_eqb k k' then (k', x) :: r else (k', x') :: sset k x r
+  end.
+Definition query_results (l : list (list key * pv)) : list (list N * pv) :=
+  fold_left (fun acc px => sset (format (fst px)) (snd px) acc) l [].
+
 Definition FUEL : nat := 60.
 
 Definition run (c : tr) : tr :=
@@ -490,7 +500,7 @@ Definition run (c : tr) : tr :=
   | L [I 23; v; s; es] =>
       match d_pv FUEL v, d_sel s, dbool es with
       | Some x, Some sl, Some e =>
-          elist (fun pr => L [estr (format (fst pr)); e_pv (snd pr)]) (squery (sel_fn sl) e x)
+          elist (fun pr => L [estr (fst pr); e_pv (snd pr)]) (query_results (squery (sel_fn sl) e x))
       | _, _, _ => ebad
       end
   | L [I 24; f; v] =>
